@@ -191,11 +191,98 @@ def r17_4(chk, facts):
         else:
             chk.fail('R17.4', site, fn['file'], fn['l'], 'std::array<T,%s> is returned without checking that exactly %s elements were consumed (count test: %s, end_array test: %s)' % (N, N, ok_count, ok_end), None, fn['q'])
 
+def r17_2(chk, facts):
+    """Mandatory members: in the expansions of the N_* macro families the member with 0-based position i is mandatory iff i < N, in every
+    generated function of both routes (json_traits is/try_as/to_json and the streaming encode/decode traits)."""
+    from .. import guards as G
+    chk.rule('R17.2', 'mandatory members: every test in a macro-generated traits function that compares a member position with num_mandatory_params '
+                      'holds exactly for positions 0..N-1 (constant positions are folded with the class constants; run-time positions must use `<`), '
+                      'in both routes', floor=60)
+    consts = {}
+    for v in facts.vars:
+        if v.get('n') in ('num_params', 'num_mandatory_params') and not v.get('dep') and v.get('init') is not None:
+            c = A.const(v['init'])
+            if c is not None: consts[v['q']] = c
+    def val(e):
+        s2 = A.strip(e, casts=True)
+        if s2 is None: return None
+        c = A.const(s2)
+        if c is not None: return c
+        if s2.get('k') == 'DeclRefExpr' and s2.get('q') in consts: return consts[s2['q']]
+        if s2.get('k') == 'BinaryOperator' and s2.get('op') in ('-', '+'):
+            a, b = val(s2.get('lhs')), val(s2.get('rhs'))
+            if a is None or b is None: return None
+            return a - b if s2['op'] == '-' else a + b
+        return None
+    n = 0; fams = set()
+    for fn in facts.functions:
+        if fn.get('body') is None or fn.get('dep') or not fn['file'].startswith('drivers/reflect.cpp'): continue
+        k = 0
+        for x in A.walk_no_lambda(fn['body']):
+            c = G.comparison(x) if x.get('k') == 'BinaryOperator' else None
+            if not c: continue
+            op, l, r = c
+            def nref(e):
+                return [y for y in A.walk(e) if y.get('k') == 'DeclRefExpr' and y.get('n') == 'num_mandatory_params']
+            if not nref(l) and not nref(r): continue
+            if nref(l) and not nref(r): op, l, r = G.FLIP[op], r, l
+            if A.ref_name(l) == 'num_params' and op in ('==', '!='): continue      # "all members are mandatory" shortcut
+            N = consts.get(nref(r)[0].get('q'))
+            if N is None: continue
+            bound = val(r)           # the value the position is compared with (N itself unless the expression was altered)
+            k += 1; n += 1
+            fams.add(x.get('m') or fn.get('m') or '')
+            cls = A.strip_targs(fn.get('cls') or fn['q']).split('::')[-1]
+            who = (fn.get('cls') or fn['q'])
+            wit = who[who.find('jcsa_reflect::'):].split('>')[0].split(',')[0] if 'jcsa_reflect::' in who else who[-30:]
+            site = 'drivers/reflect.cpp %s<%s>::%s mandatory test#%d' % (cls, wit, fn['n'], k)
+            i = val(l)
+            if i is not None and bound is not None:
+                got = {'<': i < bound, '<=': i <= bound, '>': i > bound, '>=': i >= bound, '==': i == bound, '!=': i != bound}[op]
+                if got == (i < N): chk.ok('R17.2', site, {'position': i, 'mandatory_count': N, 'operator': op} if k == 1 else None)
+                else: chk.fail('R17.2', site, fn['file'], x.get('l'), '%s<%s>::%s treats member %d of a type with %d mandatory members as %s (test `%s %s`)' % (
+                    cls, wit, fn['n'], i, N, 'mandatory' if got else 'optional', A.text(l), op + ' ' + A.text(r)), {'macro': x.get('m')}, fn['q'])
+            else:
+                if op == '<' and A.ref_name(r) == 'num_mandatory_params': chk.ok('R17.2', site, {'position': A.text(l), 'operator': op} if k == 1 else None)
+                else: chk.fail('R17.2', site, fn['file'], x.get('l'), '%s<%s>::%s decides whether member `%s` is mandatory with `%s num_mandatory_params`; a member is mandatory iff its position < N' % (
+                    cls, wit, fn['n'], A.text(l), op), {'macro': x.get('m')}, fn['q'])
+    chk.require(n >= 60, 'R17.2: only %d mandatory-member tests found in the macro expansions' % n)
+
+def r17_5(chk, facts):
+    """The streaming encode route opens every container with its length: MessagePack has no indefinite-length containers."""
+    chk.rule('R17.5', 'typed encoding: every begin_array/begin_object issued by encode_traits and by the macro-generated encode functions resolves to '
+                      'the overload that takes the element count first (a length-less open cannot be encoded as MessagePack)', floor=10)
+    n = 0; seen = set()
+    for fn in facts.functions:
+        if fn.get('body') is None or fn.get('dep'): continue
+        if not (fn['file'].endswith('reflect/encode_traits.hpp') or fn['file'].startswith('drivers/reflect.cpp')): continue
+        key = (fn['file'], fn['l'], fn['n']) if not fn['file'].startswith('drivers/') else (fn['q'],)
+        if key in seen: continue
+        seen.add(key)
+        k = 0
+        for c in A.calls_in(fn['body'], no_lambda=True):
+            if A.callee_name(c) not in ('begin_array', 'begin_object') or c.get('k') != 'CXXMemberCallExpr': continue
+            cal = facts.callee(fn, c)
+            if cal is not None: ptypes = [F.tname(cal, p_['t']) for p_ in cal.get('params') or []]
+            else:
+                a0 = (c.get('args') or [None])[0]
+                ptypes = [fn['_types'][a0['t'] - 1]] if a0 is not None and a0.get('t') else []
+            k += 1; n += 1
+            cls = A.strip_targs(fn.get('cls') or fn['q']).split('::')[-1]
+            site = '%s %s::%s %s#%d' % (fn['file'], cls, fn['n'], A.callee_name(c), k)
+            first = (ptypes[0] if ptypes else '').replace('std::', '')
+            if first in ('size_t', 'unsigned long', 'unsigned long long', 'unsigned int'): chk.ok('R17.5', site, {'first_parameter': first} if k == 1 else None)
+            else: chk.fail('R17.5', site, fn['file'], c.get('l'), '%s::%s opens a container with %s(%s, ...): no element count, so the value cannot be written as MessagePack and the routes disagree' % (
+                cls, fn['n'], A.callee_name(c), first[:30]), None, fn['q'])
+    chk.require(n >= 10, 'R17.5: only %d container opens found in the streaming encode route' % n)
+
 def run(chk, tier, only_rule=None):
     chk.explanation = EXPLANATION
     chk.not_decided = NOT_DECIDED
     facts = F.load(['reflect'], tier)
     chk.units = ['reflect']
     r17_1(chk, facts)
+    r17_2(chk, facts)
+    r17_5(chk, facts)
     r17_3(chk, facts)
     r17_4(chk, facts)
